@@ -33,17 +33,21 @@ class Interrupted(Exception):
     """raised by the harness' gamma wrapper"""
 
 
+EXC = {"Interrupted": Interrupted, "TypeError": TypeError, "KeyError": KeyError, "ValueError": ValueError, "ZeroDivisionError": ZeroDivisionError,
+       "RuntimeError": RuntimeError, "AttributeError": AttributeError}
+
+
 def tripwire_model(cfg):
     """-> (model, trip): the configured model whose gamma callback is the configured one behind a pass-through wrapper that the harness can
     arm to raise at its k-th invocation.  Unarmed it changes no number."""
     inner = mk_model(cfg).gamma
-    trip = {"armed": False, "after": 0, "count": 0}
+    trip = {"armed": False, "after": 0, "count": 0, "exc": "Interrupted"}
 
     def gamma(*a, **kw):
         if trip["armed"]:
             trip["count"] += 1
             if trip["count"] > trip["after"]:
-                raise Interrupted("gamma callback raised (harness)")
+                raise EXC.get(trip.get("exc"), Interrupted)("gamma callback raised (harness)")
         return inner(*a, **kw)
 
     return mk_model(cfg, gamma=gamma), trip
@@ -73,6 +77,7 @@ def failing_specs(draw, cfg, kinds=("absurd", "gamma-raises", "corrupt", "bad-op
     elif kind == "gamma-raises":
         spec["call_op"] = "rate"
         spec["after"] = draw(st.integers(0, 5))
+        spec["exc"] = draw(st.sampled_from(sorted(EXC)))  # what a user's callback raises: a KeyError for an unknown player, a TypeError on a None name ...
     elif kind == "corrupt":
         ti = draw(st.integers(0, n - 1))
         spec["where"] = [ti, draw(st.integers(0, len(g["teams"][ti]) - 1)), draw(st.sampled_from(["mu", "sigma"]))]
@@ -128,7 +133,7 @@ def run_failing(model, spec, trip=None):
             kw["ranks"] = list(range(len(objs)))
             kw["scores"] = list(range(len(objs)))
     if kind == "gamma-raises" and trip is not None:
-        trip.update(armed=True, after=int(spec.get("after", 0)), count=0)
+        trip.update(armed=True, after=int(spec.get("after", 0)), count=0, exc=spec.get("exc", "Interrupted"))
     try:
         fn = getattr(model, spec["call_op"])
         fn(objs, **kw) if spec["call_op"] == "rate" else fn(objs)
